@@ -11,3 +11,20 @@ chk("C30", "proof",
     "Theorems (Coq, closed): for any number of clients and any interleaving of the lock's atomic operations -- version odd iff exactly one client is in a write phase; a successful validation/upgrade was not overlapped by a completed write (with the necessary hypothesis of < 2^31 completed writes; the unbounded statement is proved false by wrap-around); abort_write restores the version outstanding leases hold; a step that does not complete its operation only happens under a concurrent writer; exhaustive exploration of 3 clients x 1 block (3 initial versions) and 2 clients x 2 blocks. Tied at step level: the real lock runs under a deterministic scheduler with a scheduling point before every atomic operation and the executed schedule is replayed in the extracted model (all results, leases, final version compared).",
     "Trusted: Coq kernel (vm_compute in the bounded theorems); extraction + OCaml driver; cpp/vsched.h scheduler and hook H1; sequential consistency (memory orders and the acquire fence are not modelled); Waiter back-off not modelled.",
     "Coq invariant proofs over an atomic-step state machine + step-level replay correspondence against the instrumented real lock", "DESIGN.md §6 C30")
+
+HOOK_COMMITS += ["879cae19f", "1b6159d3d"]
+
+chk("C01", "proof",
+    "Theorems (Coq, closed, 14 obligations): the reference evaluator run_program computes exactly the declaratively defined stratified least model (sound, complete, duplicate free; least model characterised both inductively and as the intersection of all closed interpretations; uniqueness of the stratified model), with aggregate edge cases (count/sum of an empty group fire with 0, min/max do not fire). The static hypotheses of the theorem (program_ok, program_det) are evaluated by extracted code on every generated case. Tied by running the extracted evaluator and the rebuilt souffle interpreter on generated programs + facts and comparing every output relation as a set, duplicates included.",
+    "Trusted: Coq kernel; extraction + S-expression reader; the generator's double rendering; fragment: no mean aggregate, no float functors, no '_' in aggregate-body atoms, unsigned min/max aggregates outside the completeness theorem. The translation ast->ram->interpreter is not modelled: correspondence only.",
+    "Coq proof that the reference evaluator equals the stratified least model + differential correspondence with the interpreter", "DESIGN.md §6 C01")
+
+chk("C29", "proof",
+    "Theorems (Coq, closed, 15 obligations) over a model whose steps are the single atomic loads / CASes of DisjointSet: for any number of threads / operations / steps of the current code -- (rank,index)-ordered parent links (no cycle except root self-loops), frozen non-root ranks, same-root => related by invoked unions, returning union => same root, classes never split, quiescent partition = closure; sameSet=true correct; exhaustive linearizability monitor for 3x2 and 2x3 operations over 3-4 nodes (all schedules). The code before fix b94659be9 is proved to violate these (concrete 3-node schedule), which was reproduced on the real header and repaired. Tied at step level: real DisjointSet under the deterministic scheduler (hook H3), same schedule replayed in the extracted model, all responses and the final parent/rank array compared.",
+    "Trusted: Coq kernel (vm_compute in bounded theorems); extraction + driver; cpp/vsched.h and hook H3; sequential consistency; sameSet=false answers only covered by the bounded theorems; < 255 nodes.",
+    "Coq invariant proofs over an atomic-step model + step-level replay correspondence against the instrumented real union-find", "DESIGN.md §6 C29")
+
+chk("C03", "proof",
+    "Theorems (Coq, closed): every interleaving of the workers' inserts of any chunking of a parallel scan yields the sequential result as a set, provided the scan body reads only relations it does not write (par_insert_confluent, interleavings enumerated soundly and completely). Tied by (a) validating on the emitted transformed RAM of every generated program that each PARALLEL mark sits on a query whose read and write relations are disjoint and that carries no guarded insert/erase, (b) outputs at -j1,2,3,4,8,16 and under perturbed schedules (hook H6) all equal to the proved oracle.",
+    "Trusted: Coq kernel; par_marks_ok reader of --show=transformed-ram (python, not proved); OpenMP scheduling is perturbed, not enumerated; races inside the B-tree/brie inserts belong to C25/C27; compiled float sum order (finding F5) is outside the theorem.",
+    "Coq confluence theorem for parallel set inserts + RAM-artefact validation + differential runs over thread counts and perturbed schedules", "DESIGN.md §6 C03")
